@@ -2,6 +2,7 @@
 from __future__ import annotations
 
 import ast
+import re
 import os
 from dataclasses import dataclass, field
 
@@ -185,6 +186,17 @@ def local_defs(f: FuncInfo) -> dict[str, list[ast.AST]]:
             out.setdefault(n.target.id, []).append(n.value)
         elif isinstance(n, ast.AugAssign) and isinstance(n.target, ast.Name):
             out.setdefault(n.target.id, []).append(n)
+    # a name assigned once in each arm of one if/else is a conditional definition
+    for n in body_walk(f.node):
+        if isinstance(n, ast.If) and len(n.body) == 1 and len(n.orelse) == 1:
+            a, b = n.body[0], n.orelse[0]
+            if isinstance(a, ast.Assign) and isinstance(b, ast.Assign) and len(a.targets) == len(b.targets) == 1 and isinstance(a.targets[0], ast.Name) and isinstance(b.targets[0], ast.Name) and a.targets[0].id == b.targets[0].id:
+                nm = a.targets[0].id
+                if nm in out and len(out[nm]) == 2 and a.value in out[nm] and b.value in out[nm]:
+                    ie = ast.IfExp(test=n.test, body=a.value, orelse=b.value)
+                    ast.copy_location(ie, n)
+                    ast.fix_missing_locations(ie)
+                    out[nm] = [ie]
     return out
 
 
@@ -232,3 +244,170 @@ def canon(e: ast.AST, defs: dict[str, list[ast.AST]] | None = None, depth: int =
         return ast.unparse(t).replace(" ", "")
     except Exception:  # noqa: BLE001
         return norm(e).replace(" ", "")
+
+
+# ---------------------------------------------------------------- propositional equivalence of conditions
+def _bool_atoms(e, atoms):
+    if isinstance(e, ast.BoolOp):
+        for v in e.values:
+            _bool_atoms(v, atoms)
+    elif isinstance(e, ast.UnaryOp) and isinstance(e.op, ast.Not):
+        _bool_atoms(e.operand, atoms)
+    elif isinstance(e, ast.IfExp):
+        _bool_atoms(e.test, atoms)
+        _bool_atoms(e.body, atoms)
+        _bool_atoms(e.orelse, atoms)
+    elif isinstance(e, ast.Constant) and isinstance(e.value, bool):
+        pass
+    else:
+        # normalise comparison atoms so that `a >= b` and `not a < b` share an atom
+        atoms.add(_atom_key(e)[0])
+
+
+_NEG_CMP = {ast.Lt: ast.GtE, ast.GtE: ast.Lt, ast.Gt: ast.LtE, ast.LtE: ast.Gt, ast.Eq: ast.NotEq, ast.NotEq: ast.Eq, ast.Is: ast.IsNot, ast.IsNot: ast.Is, ast.In: ast.NotIn, ast.NotIn: ast.In}
+_CANON_CMP = (ast.Lt, ast.LtE, ast.Eq, ast.Is, ast.In)
+
+
+_INTY_ATTR = re.compile(r"(^|_)(level|height|count|size|idx|index|limit|no|len|length|evaluations|nlevels|dim|dimensions|age)$")
+
+
+def _is_inty(e) -> bool:
+    """Expressions the repo uses as integers (levels, heights, counters, lengths) — only these get integer
+    comparison normalisation."""
+    if isinstance(e, ast.Constant):
+        return isinstance(e.value, int) and not isinstance(e.value, bool)
+    if isinstance(e, ast.Call):
+        return norm(e.func) == "len"
+    if isinstance(e, ast.Attribute):
+        return bool(_INTY_ATTR.search(e.attr))
+    if isinstance(e, ast.Name):
+        return bool(_INTY_ATTR.search(e.id))
+    if isinstance(e, ast.BinOp) and isinstance(e.op, (ast.Add, ast.Sub, ast.Mult)):
+        return _is_inty(e.left) and _is_inty(e.right)
+    return False
+
+
+def _split_offset(e):
+    """e == base + c for an int constant c -> (base, c)"""
+    if isinstance(e, ast.BinOp) and isinstance(e.op, (ast.Add, ast.Sub)) and isinstance(e.right, ast.Constant) and isinstance(e.right.value, int) and not isinstance(e.right.value, bool):
+        b, c = _split_offset(e.left)
+        return b, c + (e.right.value if isinstance(e.op, ast.Add) else -e.right.value)
+    if isinstance(e, ast.BinOp) and isinstance(e.op, ast.Add) and isinstance(e.left, ast.Constant) and isinstance(e.left.value, int) and not isinstance(e.left.value, bool):
+        b, c = _split_offset(e.right)
+        return b, c + e.left.value
+    if isinstance(e, ast.Constant) and isinstance(e.value, int) and not isinstance(e.value, bool):
+        return ast.Constant(value=0), e.value
+    return e, 0
+
+
+def _atom_key(e):
+    """(key text, polarity) — comparisons are keyed by a canonical operator so that negated forms share the atom.
+    NOTE: a < b and a >= b are complements only for totally ordered operands (not NaN); used for guards on counters / sizes."""
+    if isinstance(e, ast.Compare) and len(e.ops) == 1:
+        op = type(e.ops[0])
+        l, r = e.left, e.comparators[0]
+        if op in (ast.Gt, ast.GtE):  # a > b  ==  b < a
+            op = {ast.Gt: ast.Lt, ast.GtE: ast.LtE}[op]
+            l, r = r, l
+        if op in (ast.Lt, ast.LtE) and _is_inty(l) and _is_inty(r):
+            # integer operands: a <= b + k  ==  a < b + k + 1; constants are moved to the right-hand side and the
+            # two bases ordered textually, so `x > h - 2` and `x >= h - 1` share one atom
+            (lb, lc), (rb, rc) = _split_offset(l), _split_offset(r)
+            k = rc - lc + (1 if op is ast.LtE else 0)
+            lt, rt = canon(lb), canon(rb)
+            if lt <= rt:
+                return (f"int:{lt}<{rt}+{k}", True)
+            return (f"int:{rt}<{lt}+{1 - k}", False)
+        if op in _CANON_CMP:
+            # a <= b == not (b < a)
+            if op is ast.LtE:
+                return (f"{canon(r)}<{canon(l)}", False)
+            return (f"{canon(l)}{ {ast.Lt: '<', ast.Eq: '==', ast.Is: ' is ', ast.In: ' in '}[op] }{canon(r)}", True)
+        if op in _NEG_CMP and _NEG_CMP[op] in _CANON_CMP:
+            k, p = _atom_key(ast.Compare(left=l, ops=[_NEG_CMP[op]()], comparators=[r]))
+            return (k, not p)
+    if isinstance(e, ast.Call) and norm(e.func) == "bool" and len(e.args) == 1:
+        return _atom_key(e.args[0])
+    return (canon(e), True)
+
+
+def _bool_eval(e, env):
+    if isinstance(e, ast.BoolOp):
+        vals = [_bool_eval(v, env) for v in e.values]
+        return all(vals) if isinstance(e.op, ast.And) else any(vals)
+    if isinstance(e, ast.UnaryOp) and isinstance(e.op, ast.Not):
+        return not _bool_eval(e.operand, env)
+    if isinstance(e, ast.IfExp):
+        return _bool_eval(e.body, env) if _bool_eval(e.test, env) else _bool_eval(e.orelse, env)
+    if isinstance(e, ast.Constant) and isinstance(e.value, bool):
+        return e.value
+    k, pol = _atom_key(e)
+    return env[k] if pol else not env[k]
+
+
+def bool_equiv(e1: ast.AST, e2: ast.AST, max_atoms: int = 8) -> bool | None:
+    """Are two conditions equivalent as boolean functions of their atomic sub-conditions (truth-table check)?
+    None if there are too many atoms."""
+    atoms: set[str] = set()
+    _bool_atoms(e1, atoms)
+    _bool_atoms(e2, atoms)
+    atoms = sorted(atoms)
+    if len(atoms) > max_atoms:
+        return None
+    for mask in range(1 << len(atoms)):
+        env = {a: bool(mask >> i & 1) for i, a in enumerate(atoms)}
+        if bool(_bool_eval(e1, env)) != bool(_bool_eval(e2, env)):
+            return False
+    return True
+
+
+def parse_cond(text: str) -> ast.expr:
+    return ast.parse(text, mode="eval").body
+
+
+def cond_is(e: ast.AST, text: str, defs: dict | None = None) -> bool:
+    """Is condition e (after substituting single-definition locals) propositionally equivalent to `text`?"""
+    import copy as _copy
+
+    e2 = _Subst(defs, 4).visit(_copy.deepcopy(e)) if defs else e
+    return bool_equiv(e2, parse_cond(text)) is True
+
+
+# ---------------------------------------------------------------- keyword arguments incl. **dict-literal locals
+def effective_keywords(call: ast.Call, defs: dict[str, list[ast.AST]] | None = None) -> dict[str, ast.AST]:
+    """Keyword arguments of a call, including those passed through `**name` when `name` is a local bound once to a
+    dict literal / dict(...) call (later item stores `name['k'] = v` are merged too when found in `defs['name[]']`)."""
+    out = {}
+    for k in call.keywords:
+        if k.arg is not None:
+            out[k.arg] = k.value
+        elif defs is not None and isinstance(k.value, ast.Name) and k.value.id in defs and len(defs[k.value.id]) == 1:
+            d = defs[k.value.id][0]
+            if isinstance(d, ast.Dict):
+                for kk, vv in zip(d.keys, d.values):
+                    if isinstance(kk, ast.Constant) and isinstance(kk.value, str):
+                        out.setdefault(kk.value, vv)
+            elif isinstance(d, ast.Call) and norm(d.func) == "dict":
+                for k2 in d.keywords:
+                    if k2.arg:
+                        out.setdefault(k2.arg, k2.value)
+    return out
+
+
+def eval_under(e: ast.AST, defs: dict, assume: str, truth: bool, depth: int = 0) -> ast.AST:
+    """Resolve e through single-definition locals and conditional expressions whose test is (propositionally) the
+    assumption `assume` or its negation, taking the arm selected by `truth`."""
+    if depth > 10 or e is None:
+        return e
+    if isinstance(e, ast.IfExp):
+        t = e.test
+        td = _Subst(defs, 4).visit(__import__("copy").deepcopy(t)) if defs else t
+        a = parse_cond(assume)
+        if bool_equiv(td, a) is True:
+            return eval_under(e.body if truth else e.orelse, defs, assume, truth, depth + 1)
+        if bool_equiv(td, ast.UnaryOp(op=ast.Not(), operand=a)) is True:
+            return eval_under(e.orelse if truth else e.body, defs, assume, truth, depth + 1)
+        return e
+    if isinstance(e, ast.Name) and defs and e.id in defs and len(defs[e.id]) == 1 and not isinstance(defs[e.id][0], ast.AugAssign):
+        return eval_under(defs[e.id][0], defs, assume, truth, depth + 1)
+    return e
